@@ -10,31 +10,31 @@ P = {
     'C15': (True, 'exploration',
             'controlled scheduler (sys.monitoring LINE gates + real flock taken non-blockingly) over the real cache code; offline history checker with unique values',
             'Two callers: ALL gate-level schedules of every pair from {get, get_or_compute, forced get_or_compute} x {entry present, absent} x {same, separate cache object} are '
-            'enumerated by DFS (24 pairs, exhaustive per pair reported in evidence); three callers and all-lines gating: random and PCT-style schedules. The recorded history '
+            'enumerated by DFS (24 pairs, exhaustive per pair reported in evidence); three callers, all-lines gating and process-level callers: random and PCT-style schedules. The recorded history '
             '(call/return steps, computer invocations, lock events, truncate/write steps, results) is checked offline: returned values are complete results of one computation, '
             'no call raises, quiescent file is a complete entry, no needless recompute / NO_VALUE unless a write that began after the call\'s first step overlaps it.',
-            'Threads in one process (flock exclusion is per open file description, as between processes); interleavings inside a single write() are not split; JsonCache in quick, all three file caches in thorough.',
+            'Callers are threads of one process and, in a second family, forked OS processes driven through pipes (same gates); interleavings inside a single write() are not split; JsonCache in quick, all three file caches in thorough.',
             'DESIGN.md §3 C15'),
     'C05': (True, 'fault_enumeration',
             'source-free failpoints in an audit hook: crash before EVERY mutating file operation of a recorded execution, torn prefixes of every written file, raise points; post-fault oracle in a fresh process',
             'For each storable data class (JSON dict/list/scalars, numpy, pandas, generator, lazy generator, list of arrays, DirData, ContinuesData, legitimately empty results), for first '
             'computation and forced recomputation over an existing result: the audited mutating file-system events of the recorded execution are enumerated completely and the process is killed '
-            'before each; each file opened for writing is left with prefixes {0,1,n/2,n-1} of its content at the path the implementation itself opened; run/generator/type-check/serialisation '
-            'raise. A fresh process then checks: has_data => value loads, equals the reference, no run; else exactly one recompute; second request and a downstream task work; '
+            'before each; each file opened for writing is left with prefixes {0,1,n/2,n-1} of its content at the path the implementation itself opened; crash right after the publishing rename; '
+            'run/generator/type-check/serialisation raise; the audit hook\'s completeness is cross-checked against strace on sampled sessions. A fresh process then checks: has_data => value loads, equals the reference, no run; else exactly one recompute; second request and a downstream task work; '
             '_error / _tmp work-directory rules for DirData / ContinuesData.',
             'Crash model = process death between audited operations + torn sequential writes (no power-loss reordering); H5Data/FigureData not exercised; values are the lab\'s small provenance values.',
             'DESIGN.md §3 C05'),
     'C19': (True, 'exploration',
             'helper value vs real-chain value vs value recomputed from the supplied inputs; invocation log and file monitor for mocked tasks',
             'For tasks of generated pipelines the helpers (create_test_task / TestChain) get the task class, mock values keyed by class or name (real upstream values, or '
-            'arbitrary ones incl. None, falsy, nested, callables, classes) and parameter values (by name_in_config, defaults omitted or spelled, parameter objects as instances '
+            'arbitrary ones incl. None, falsy, nested, callables, classes; a mocked class may also be listed among the real tasks) and parameter values (by name_in_config, defaults omitted or spelled, parameter objects as instances '
             'or definitions, ChainObject parameter objects); the helper\'s value digest must equal the real chain\'s and the digest recomputed from the supplied values; only the '
             'tested task may run (once); no file outside its directory; a missing required input mock or parameter must fail at helper construction.',
             'Fresh base dir per helper; no global_vars (helpers have no such argument).',
             'DESIGN.md §3 C19'),
     'C20': (True, 'exploration',
             'multi-process migration histories: name-mode chain, dry/real/repeated migration, parameter-mode chain on the target with the source moved away; run log, has_data, value and tree-hash monitors',
-            'Generated file-based pipelines (uses/namespaces, multi-config files with and without explicit part, contexts, global_vars incl. placeholder `uses` paths, dotted config names, '
+            'Generated file-based pipelines (uses/namespaces, multi-config files with and without explicit part, contexts, global_vars incl. placeholder `uses` paths, dotted and explicitly given config names, '
             'all file/directory data classes incl. empty results) computed in name mode for random subsets; dry migration writes nothing; after migration has_data(parameter mode on target) == '
             'has_data(name mode) per computation, migrated values load without any run and equal the reference, the rest computes normally; source tree hashes unchanged; second migration is a no-op; '
             'the target still works after the source directory is moved away.',
@@ -51,7 +51,8 @@ P = {
             'DESIGN.md §3 C02'),
     'C03': (True, 'exploration',
             'adversarial value-pair monitor on real one-task chains + graph-level mutation monitor (moved set == {U} U descendants) + location->descriptor injectivity',
-            'About 20 000 pairs of unequal JSON-like values / parameter objects (structural neighbours, separator and quote strings, long values differing late) per quick run, '
+            'About 20 000 pairs of unequal JSON-like values / parameter objects (structural neighbours, separator and quote strings, long values differing late, subclassed '
+            'parameter objects next to instances of their parent class) per quick run, '
             'each given to a real task: keys must differ; generated pipelines where one parameter (any depth, object arguments) is changed or inputs are rewired: exactly the '
             'task and its descendants must move. One open known finding (unescaped quotes) matched by mechanism: frozen texts identical and a quote inside a string.',
             'Pairs Python considers equal (1/1.0/True) and NaN are excluded as in the statement.',
@@ -100,7 +101,7 @@ P = {
             'excluded/abstract classes, confusable names) are built by the real Chain in a worker process; task set, per-task input bindings, graph edges and '
             'required/dependent closures of every task are compared with an independent reference model; 30% of cases carry one injected dangling input or '
             '1-/2-/3-cycle and must fail at construction (both modes).',
-            'Reference semantics = DESIGN.md Appendix A; don\'t-care zones listed in the evidence assumptions; pattern inputs not yet generated.',
+            'Reference semantics = DESIGN.md Appendix A; don\'t-care zones listed in the evidence assumptions; pattern inputs `~re` / `~~re` are generated with regexes that name the wanted tasks explicitly.',
             'DESIGN.md §3 C08'),
     'C09': (True, 'exploration',
             'reference precedence model vs Task.params of real chains + aliasing monitor on caller-owned contexts',
@@ -120,20 +121,23 @@ P = {
             'typed deep-equality monitor across run / computing chain / fresh chain / fresh interpreter + stored-file hash monitor',
             'One real task per generated value of every storable data class in the statement; the value run returned, the value the computing chain '
             'returned, the value a fresh chain loads and the value a fresh interpreter loads are compared in typed canonical form (bool!=int, float bits, '
-            'dtype/shape/bytes, index/column types, order); file hashes before/after loading. ~4 800 values quick.',
+            'dtype/shape/bytes, index/column types, order); file hashes before/after loading; generated sequences up to 4097 items; for a quarter of the values of half of the cases a '
+            'failed earlier attempt of the same task (a larger value whose storing fails part-way) precedes the run. ~4 800 values quick.',
             'Domain as in the statement (evidence assumptions list what is excluded); pandas/numpy equality via a canonical form written for this check.',
             'DESIGN.md §3 C06'),
     'C14': (True, 'exploration',
             'dictionary reference model with unique values checked online against real cache objects, damage operations on the real cache files',
             'Random sequences of get/get_or_compute/force/raising computers/sub-cache accesses and file damage (every truncation class, empty, garbage, '
             'well-formed-but-wrong JSON, delete, foreign-key swap) on JsonCache (both allow_nones), DataFrameCache, NumpyArrayCache, InMemoryCache and '
-            'nested sub-caches; each return value and computer-call count is compared with a dictionary model; final sweep over all entries.',
+            'nested sub-caches; each return value and computer-call count is compared with a dictionary model; every value handed out is re-examined after later operations '
+            '(it must not change behind the caller\'s back); object-dtype arrays included; final sweep over all entries.',
             'A damaged file that still loads to exactly the stored value is treated as intact; exception type of the foreign-key report is not checked.',
             'DESIGN.md §3 C14'),
     'C16': (True, 'exploration',
             'python binding model (inspect.Signature.bind + apply_defaults) vs executions/entries of generated cached methods',
             'Generated classes with cached methods over positional, defaulted and keyword-only parameters, ignored kwargs, versions, bare/called decorator; '
-            'call sequences with random spellings of bindings and the three control keywords on InMemoryCache and JsonCache; oracle = dictionary keyed by '
+            'call sequences with random spellings of bindings (positional prefix, keyword order, defaults, item order of mappings inside arguments) and the three control keywords '
+            '(supplied values incl. None and other falsy values) on InMemoryCache and JsonCache; oracle = dictionary keyed by '
             'the canonical binding; execution counts, returned values, arguments the method really received and entry counts per method/version.',
             'Positional-only/variadic parameters, custom key functions and shared external cache objects are out of scope.',
             'DESIGN.md §3 C16'),
@@ -146,16 +150,17 @@ P = {
             'DESIGN.md §3 C10'),
     'C11': (True, 'exploration',
             'reference substitution + typed structure comparison + idempotence/str-likeness/copy monitors; real Config/Chain constructions',
-            'search_and_replace_placeholders is run on generated JSON-like trees (mapping and object global_vars) and compared leaf by leaf with a '
+            'search_and_replace_placeholders is run on generated JSON-like trees (global_vars as dict, OrderedDict, instance, class attributes, inherited attributes, properties, '
+            'SimpleNamespace, module, __slots__) and compared leaf by leaf with a '
             'reference substitution; non-string leaves, structure, idempotence, str behaviour, repr after copy/deepcopy of string, container and Config '
-            'are monitored; real Config/Chain constructions put placeholders in `uses` paths, context values (dict and file) and object-definition arguments.',
+            'are monitored; real Config/Chain constructions put placeholders in `uses` paths, context values (dict and file), object-definition arguments and ready-made Config objects in `uses`.',
             'Ambiguous brace nestings and replacement values containing braces are outside the text oracle (idempotence/type still checked).',
             'DESIGN.md §3 C11'),
     'C17': (True, 'exploration',
             'controller-dictated worker completion orders (bounded-exhaustive per small config) + result/call-count oracle',
             'Runs the real parallel_map (both implementations) and chunked under a controller that blocks every call of f and '
             'releases calls in a dictated order; all feasible completion orders are enumerated for n<=5 (6 thorough), random/'
-            'adversarial orders for larger inputs; oracle: result == sequential map, f once per element, exception propagates, '
+            'adversarial orders for larger inputs; outputs are tuples, exception objects (returned, not raised), None, falsy values or unorderable dicts; oracle: result == sequential map, f once per element, exception propagates, '
             'sort=False is a per-chunk permutation. Held on the executions listed in evidence, not a proof.',
             'Trusts the controller to realise the dictated order (realised order is measured from f); main-thread event loop.',
             'DESIGN.md §3 C17'),
